@@ -34,6 +34,12 @@ COMMON_NOTE = ('Trusted/assumed: Verus 0.2026.09.13 + Z3; the extraction rewrite
                'MatchError constructors opaque. The contracts AC/SC/PC of a *built* automaton are hypotheses of the proofs; they are executed on the real '
                'builders by the bounded stand-ins listed under coverage.bounded_checks (bounded over pattern lists, never counted as proved).')
 
+def b(name, **kw):
+    return (B, name, kw)
+
+
+U1 = [(V, 'u1_search', {}), (V, 'u1_overlap', {}), (V, 'u1_iter', {})]
+
 PROPS = {
     'C01': dict(
         components=[(V, 'u1_search', {}), (V, 'u1_iter', {}),
@@ -53,11 +59,102 @@ PROPS = {
         level_text='Proof (Verus): every call of the real try_find_overlapping_fwd(_imp) on an OverlappingState reports the head of ov_remaining(state) (abstraction function over id/at/next_match_index) and leaves its tail, or reports None forever once it is empty — for all call-history prefixes, haystacks, spans. Bounded stand-in: the listing equals all occurrences exactly once in (end, longer-first, id) order on the real builders.',
         level_note=COMMON_NOTE,
     ),
+    'C04': dict(
+        components=U1 + [b('bisim', families='small,abc,ci,wide'),
+                         sem('std,lf,ll', 'find,iter,ov', families='small', cfgs='all')],
+        level_text='Proof (Verus): every search API is a function of the abstract automaton only (find_spec / ov_remaining over AC), so two representations with equal abstract behaviour give equal results for every haystack. Bounded stand-in (exhaustive over haystacks per pattern list): product BFS bisimulation of the reference noncontiguous NFA with every contiguous/DFA/dense-depth/byte-class configuration over all 256 bytes from both start states; top-level vs low-level use compared through the API.',
+        level_note=COMMON_NOTE + ' The lifting "bisimilar automata => equal API results" (L-bisim) is an unmechanised consequence of the proved postconditions being functions of the AC ghost state only.',
+    ),
+    'C05': dict(
+        components=[(V, 'u1_search', {}), (V, 'u1_overlap', {}),
+                    b('pc')],
+        level_text='Proof (Verus): under the prefilter coherence contract PC both search loops return exactly what the prefilter-free abstract run returns (prefilter consulted only before the loop and in the start state with no pending match; a candidate is used only if it lies ahead; None ends the search). Bounded stand-in: PC itself (None / PossibleStartOfMatch / Match clauses) executed for every prefilter variant the real builder selects, every span of short haystacks and long haystacks, plus API transparency.',
+        level_note=COMMON_NOTE,
+    ),
+    'C06': dict(
+        components=[b('packed')],
+        level='exploration',
+        level_text='Bounded stand-in only so far: every packed variant available on this CPU (Rabin-Karp, slim Teddy 128/256, fat Teddy, default) on the real SIMD code vs the leftmost definition, haystack lengths 0..=100, every span of short haystacks.',
+        level_note='No obligations are discharged for C06 yet; bounded executed contract only. SIMD intrinsics are outside every installed verifier.',
+    ),
+    'C07': dict(
+        components=[b('stream')],
+        level='exploration',
+        level_text='Bounded companion: stream_find_iter vs in-memory definition for explicit read schedules and tiny roll-buffer capacities (hook H2).',
+        level_note='Verus unit u2_stream pending; until then bounded only.',
+    ),
+    'C08': dict(
+        components=[b('stream')],
+        level='exploration',
+        level_text='Bounded companion: stream replace_all / replace_all_with vs splice definition for explicit read schedules and tiny capacities.',
+        level_note='Verus unit u2_stream pending; until then bounded only.',
+    ),
     'C09': dict(
         components=[(V, 'u1_search', {}), (V, 'u1_overlap', {}), (V, 'u1_iter', {}),
                     sem('std,lf,ll', 'find,iter,anch,ovanch,spans')],
         level_text='Proof (Verus): with an anchored input the search loop keeps only matches starting at input.start (scan with fstart = Some(start)), the overlapping stepper reports exactly the kept matches (state_matches with keep), FindIter is generic in anchoring. Bounded stand-in: anchored results equal the definition restricted to occurrences starting at the span start, for NFAs and DFAs with Anchored/Both start kinds.',
         level_note=COMMON_NOTE,
     ),
+    'C10': dict(
+        components=U1 + [sem('std,lf,ll', 'find,iter,ov,anch,spans', families='small'), b('pc', aspects='find,iter')],
+        level_text='Proof (Verus): every postcondition of the search units is stated for an arbitrary valid span; haystack is indexed only at positions in [start,end) (bounds obligations), every reported match lies in the span (lemma_scan_bounds), is_done yields None, Input::set_span/set_start preconditions are exactly the non-panicking domain. Bounded stand-in: all spans incl. start = end+1 on the real builders and prefilters.',
+        level_note=COMMON_NOTE,
+    ),
+    'C11': dict(
+        components=[sem('std,lf,ll', 'find,iter,ov,anch', families='ci', ci='1'), b('pc'), b('bisim', families='ci')],
+        level='exploration',
+        level_text='Bounded stand-in so far: definition with ASCII folding vs real builders over letters of both cases, boundary bytes and non-ASCII bytes; prefilter contract with ci on.',
+        level_note='Kani harness for opposite_ascii_case pending.',
+    ),
+    'C12': dict(
+        components=[(V, 'u1_iter', {}), b('replace')],
+        level_text='Proof (Verus) of the iterator the splice loop is driven by (increasing, in-span, non-overlapping matches). Bounded stand-in: replace_all / replace_all_bytes / closure variants with early stop vs splice definition on multi-byte UTF-8 haystacks and byte patterns that split code points.',
+        level_note=COMMON_NOTE + ' The splice loop itself (u7_replace) is pending.',
+    ),
+    'C13': dict(
+        components=[(V, 'u1_search', {}), (V, 'u1_overlap', {}), (V, 'u1_iter', {}), b('cfgprod')],
+        level_text='Proof (Verus): try_find_fwd / try_find_overlapping_fwd / FindIter::new fail exactly when start_state has no start state for the requested anchoring (and, for overlapping, when the match kind is not standard), independent of the haystack; a constructed FindIter never hits its expect. Exhaustive stand-in: the full finite product match kind x start kind x anchoring x engine kind x 17 APIs x empty-pattern on the real code.',
+        level_note=COMMON_NOTE,
+    ),
+    'C14': dict(
+        components=[(V, 'u1_search', {}), sem('std,lf,ll', 'earliest,ismatch,anch,spans', families='small')],
+        level_text='Proof (Verus): the earliest flag is forwarded to the loop, which returns at the first match state (find_post: with a prefilter the normal answer is also allowed). Bounded stand-in: earliest result is a genuine occurrence ending no later than the normal answer and is Some iff the normal one is; is_match iff an occurrence exists.',
+        level_note=COMMON_NOTE,
+    ),
+    'C15': dict(
+        components=U1 + [b('packed'), b('pc', aspects='find')],
+        level_text='Proof (Verus): every index, slice, subtraction, addition, unwrap/expect/assert!/debug_assert! in the extracted search functions is a discharged obligation; reported matches satisfy start <= end <= len and pid < pattern count (match_in lemmas). Bounded stand-in for the raw-pointer SIMD code: all packed variants on exactly-sized allocations for lengths 0..=100.',
+        level_note=COMMON_NOTE + ' Raw-pointer code (Teddy, is_prefix_raw) is covered by bounded runs only until the Kani unit lands.',
+    ),
+    'C16': dict(
+        components=[(V, 'u1_search', {}), b('ac', families='small,abc,ci')],
+        level_text='The Automaton contract AC is the hypothesis the proved search loops consume (Verus). Bounded stand-in, exhaustive per automaton: every clause of AC evaluated on all reachable states x 256 bytes x both anchoring arguments of every automaton of the bounded pattern space.',
+        level_note=COMMON_NOTE,
+    ),
+    'C17': dict(
+        components=[b('purity')],
+        level='other',
+        explanation='Sequential half: every function under contract has a postcondition result = spec(arguments), a history-free function. The schedule quantifier is not decided by this family (Kani has no threads, Verus cannot model std::thread); a differential run (orders, clones, 8 threads) is the only dynamic evidence.',
+        level_text='Not a proof: differential run only for the concurrent half; see explanation.',
+        level_note='Data-race freedom of a Sync value shared by & is Rust\'s soundness theorem (assumed).',
+    ),
+    'C18': dict(
+        components=[b('stream', faults='1')],
+        level='fault_enumeration',
+        level_text='Bounded companion: a read fault at every byte position and a write fault after every output length, for explicit read schedules and tiny capacities.',
+        level_note='Verus unit u2_stream pending; until then bounded only.',
+    ),
+    'C19': dict(
+        components=[(V, 'u1_search', {}), (V, 'u1_overlap', {}), b('faildepth')],
+        level_text='Proof (Verus): both search loops perform one next_state call per iteration and every iteration strictly increases the position (decreases clauses), so at most one transition per byte. Bounded stand-in through hooks: depth(fail(s)) < depth(s) for every state of the noncontiguous NFA; counters: transitions <= span length, failure traversals <= transitions (NFAs), zero (DFA).',
+        level_note=COMMON_NOTE,
+    ),
+    'C20': dict(
+        components=[b('meta')],
+        level='exploration',
+        level_text='Bounded stand-in: shape-diverse pattern collections x option combinations: no panic, requested kind returned, metadata mirrors input, ids are input positions.',
+        level_note='Verus/Kani units for build dispatch and id limits pending.',
+    ),
 }
+
 LEVEL = {pid: 'proof' for pid in PROPS}
